@@ -652,7 +652,9 @@ func c16(x *mon.Ctx) {
 		for round := 0; round < pRounds; round++ {
 			c := wq.Case(world.LCrl, "c16-variant", "crl")
 			t0 := time.Now()
-			inner := &windowGetter{resp: c.Resp, failUntil: t0.Add(300 * time.Millisecond), match: func(u string) bool { return strings.Contains(u, "pckcrl") || strings.HasSuffix(u, ".der") || strings.Contains(u, "crl") }}
+			inner := &windowGetter{resp: c.Resp, failUntil: t0.Add(300 * time.Millisecond), match: func(u string) bool {
+				return strings.Contains(u, "pckcrl") || strings.HasSuffix(u, ".der") || strings.Contains(u, "crl")
+			}}
 			var wg sync.WaitGroup
 			start := make(chan struct{})
 			var late int64 // worst timer lateness seen while the round ran (a stalled machine explains a late request)
